@@ -2173,6 +2173,8 @@ func runRacingFirst(k int, sec *vh.Section) {
 	}
 	// stored order of the batches per source: the class of F10 loses only batches stored before the first copied one
 	prefixOnly := true
+	jumped := true // every source with a non-prefix loss has its saved position at the end of its data: a jump over whole batches
+	ds, _ := srv.Pipes.VerifC10Descs("rf")
 	detail := []string{}
 	for s := 0; s < nsrc; s++ {
 		stored, _ := readAll(srv, fmt.Sprintf("select from {app=r%d,grp=g1}", s))
@@ -2191,6 +2193,28 @@ func runRacingFirst(k int, sec *vh.Section) {
 		}
 		if !anyCopied {
 			prefixOnly = false
+		}
+		// is this source's loss F10-shaped (a prefix of whole batches before the first copied one)?
+		srcPrefix, seen := anyCopied, false
+		for _, e := range stored {
+			k := e.Message[:strings.Index(e.Message, "-")]
+			if got[k] > 0 {
+				seen = true
+			} else if seen {
+				srcPrefix = false
+			}
+		}
+		if !srcPrefix {
+			atEnd := false
+			tl := fmt.Sprintf("app=r%d,grp=g1", s)
+			for _, d := range ds {
+				if d.Tags == tl && globalIdx(srv, tl, d.Pos) == len(stored) {
+					atEnd = true
+				}
+			}
+			if !atEnd {
+				jumped = false
+			}
 		}
 	}
 	res.Eval(sec, fmt.Sprint("racing", k, len(dest)))
@@ -2213,11 +2237,18 @@ func runRacingFirst(k int, sec *vh.Section) {
 		res.SpecFail(vh.SpecFailure{Section: "stress", Kind: "partial-or-duplicate-batch", Input: map[string]interface{}{"writers": k}, Impl: fmt.Sprint(got), Spec: "every batch whole, once",
 			What: "racing first writes: a batch was copied partially or more than once"})
 	} else if len(missing) > 0 {
-		finding := ""
+		finding, kind := "", "lost-first-batch"
 		if prefixOnly {
 			finding = "F10"
+		} else if jumped && atomic.AddInt64(&f34Attributed, 1) <= 3 {
+			// not the shape of F10 (batches are missing behind a copied one, or a source has nothing copied), only whole
+			// batches are missing and the pipe's saved position of every such source stands at the end of its data: the
+			// cursor jumped over batches confirmed while the (starting) worker was at end-of-data — the library race. A free
+			// race cannot be executed again; the rate guard (three per run) applies.
+			finding, kind = "F34", "tail-skip"
+			prefixOnly = true
 		}
-		res.SpecFail(vh.SpecFailure{Section: "stress", Kind: "lost-first-batch", Input: map[string]interface{}{"writers": k, "missing": missing}, Impl: fmt.Sprintf("%d events; batches in stored order with the number of their events copied: %v", len(dest), detail), Spec: fmt.Sprint(nsrc * k * 3),
+		res.SpecFail(vh.SpecFailure{Section: "stress", Kind: kind, Input: map[string]interface{}{"writers": k, "missing": missing}, Impl: fmt.Sprintf("%d events; batches in stored order with the number of their events copied: %v", len(dest), detail), Spec: fmt.Sprint(nsrc * k * 3),
 			ImplEqModel: prefixOnly, Finding: finding, What: "racing first writes to a new source: a whole first batch of one writer is never copied"})
 	}
 }
